@@ -28,7 +28,8 @@ def arrays_for(d, tier):
     # Scale family: rows longer than the 16/32/64-byte chunks of the vectorised DSV index builders, with long
     # stretches free of delimiter / quote / low bytes (a 64-byte block holding an odd number of quotes and nothing
     # else special is what a chunk-skipping engine gets wrong), placed before, after and between short fields.
-    ns = (62, 63, 64, 70, 127) if tier == "quick" else (15, 16, 17, 31, 32, 33, 61, 62, 63, 64, 65, 66, 70, 126, 127, 128, 129, 130, 200)
+    ns = (62, 63, 64, 70, 127, 193, 256, 300, 513) if tier == "quick" else (15, 16, 17, 31, 32, 33, 61, 62, 63, 64, 65, 66, 70, 126, 127, 128, 129, 130,
+                                                                              190, 193, 200, 250, 255, 256, 257, 260, 300, 319, 320, 321, 400, 513, 1025)
     longs = ["a" * n for n in ns] + ["é" * 33, "a" * 62 + '"', 'a"' * 35, "a" * 63 + d, "a" * 70 + "\n" + "b" * 70]
     shorts = al[:k]
     arrs += [[L] for L in longs] + [[L, b] for L in longs for b in shorts] + [[b, L] for L in longs for b in shorts]
@@ -101,6 +102,7 @@ def run(ctx):
     confirmed = batch.selftest(jobs + jobs2, res + res2, n=60)
     rep.traces_validated = confirmed
     rep.extra["batch_jobs_confirmed_by_real_spawns"] = confirmed
+    suspects = []
     for (d, csv), r1, r2 in zip(delims, res, res2):
         name = "csv" if csv else "dsv"
         rep.space(name, True, "every array of the bounded family for every admissible delimiter")
@@ -114,21 +116,45 @@ def run(ctx):
                 rows = [json.loads(l) for l in r2[1].decode().split("\n") if l]
             except Exception:  # noqa
                 rows = None
-        if rows == arrs:
-            continue
-        # localise: array by array, real processes (bounded: at most 40 per delimiter)
-        found = 0
-        for a in arrs:
-            ok, detail = one(d, csv, a)
-            if not ok:
-                found += 1
-                sig = classify(a, detail)
-                rep.fail(f"{name}:{sig}", sum(len(x) for x in a) + len(a), {"kind": "c22", "delim": d, "csv": csv, "array": a, "detail": detail})
-                if found >= 40:
-                    break
-        if found == 0:
-            rep.fail(f"{name}:batch-only-mismatch", 0, {"kind": "c22", "delim": d, "csv": csv, "note": "whole-batch mismatch not reproduced array by array",
-                                                         "status": [r1[0], r2[0]]})
+        if rows != arrs:
+            suspects.append((d, csv, arrs, (r1[0], r2[0])))
+    # localise: one batch job per array (format, then read back) for every delimiter whose whole-set run mismatched;
+    # candidates are then confirmed with real processes (three per signature)
+    if suspects:
+        idx = [(si, ai) for si, (d, csv, arrs, _) in enumerate(suspects) for ai in range(len(arrs))]
+        j1 = [fmt_job(suspects[si][0], suspects[si][1], [suspects[si][2][ai]]) for si, ai in idx]
+        o1 = batch.runbatch(j1, tag="c22c")
+        j2 = [read_job(suspects[si][0], r[1]) if r[0] == "0" else (["jq", "-n", "1"], b"") for (si, ai), r in zip(idx, o1)]
+        o2 = batch.runbatch(j2, tag="c22d")
+        found = {si: 0 for si in range(len(suspects))}
+        confirmed_per_sig = {}
+        for (si, ai), a1, a2 in zip(idx, o1, o2):
+            d, csv, arrs, _ = suspects[si]
+            a = arrs[ai]
+            ok = False
+            if a1[0] == "0" and a2[0] == "0":
+                try:
+                    ok = [json.loads(l) for l in a2[1].decode().split("\n") if l] == [a]
+                except Exception:  # noqa
+                    ok = False
+            if ok:
+                continue
+            name = "csv" if csv else "dsv"
+            stage = "format" if a1[0] != "0" else "read" if a2[0] != "0" else "compare"
+            detail = {"stage": stage, "status": [a1[0], a2[0]], "line": a1[1].decode("utf8", "replace")[:400], "stdout": a2[1].decode("utf8", "replace")[:400]}
+            sig = f"{name}:{classify(a, detail)}" + (":long-field" if any(len(x.encode()) >= 60 for x in a) else "")
+            if confirmed_per_sig.get(sig, 0) < 3:
+                okr, dr = one(d, csv, a)
+                confirmed_per_sig[sig] = confirmed_per_sig.get(sig, 0) + 1
+                if okr:
+                    rep.fail(f"{name}:batch-only-mismatch", 0, {"kind": "c22", "delim": d, "csv": csv, "array": a, "note": "batch result not reproduced by real processes", "detail": detail})
+                    continue
+                detail = dr
+            found[si] += 1
+            rep.fail(sig, sum(len(x) for x in a) + len(a), {"kind": "c22", "delim": d, "csv": csv, "array": a, "detail": detail, "signature_hint": sig})
+        for si, (d, csv, arrs, st) in enumerate(suspects):
+            if found[si] == 0:
+                rep.fail(("csv" if csv else "dsv") + ":batch-only-mismatch", 0, {"kind": "c22", "delim": d, "csv": csv, "note": "whole-set mismatch not reproduced array by array", "status": list(st)})
     rep.sample({"delimiter": ";", "program": prog(";", False), "array": ["a;b", "", "x\"y"], "method": "format with -r, read back with --input-dsv"})
     rep.extra["delimiters"] = len(delims)
     return rep.to_json()
